@@ -206,6 +206,8 @@ CLASSES = [
     ("SwA", "swap/one-direction-a"), ("SwB", "swap/one-direction-b"), ("SwC", "swap/both-directions-c"), ("SwD", "swap/both-directions-d"),
     ("AssignReturnsValue", "assign/returns-value"), ("AssignReturnsConstRef", "assign/returns-const-ref"), ("AssignReturnsInt", "assign/returns-int"),
     ("DelDtorFromInt", "ctor-from-int-deleted-dtor"), ("ThrowDtorFromInt", "ctor-from-int-class/throwing-dtor"),
+    ("CrefTarget", "cref-conv/target"), ("CrefConvA", "cref-conv/const-lvalue-only-conversion-op"), ("CtorD", "cref-ctor/source"),
+    ("CtorC", "cref-ctor/const-lvalue-only-ctor"),
     ("std::reference_wrapper<int>", "std-reference-wrapper"), ("etl::reference_wrapper<int>", "etl-reference-wrapper"),
 ]
 for s, c in CLASSES:
@@ -215,6 +217,18 @@ for s, c in [("Empty", "empty"), ("Pod", "pod"), ("NonTrivDtor", "nontrivial-dto
     z(f"{s} volatile", f"class/{c}+volatile")
 z("Pod const volatile", "class/pod+cv")
 
+# swappable family (round 5): {noexcept, throwing} ADL swap x {noexcept, throwing, deleted} moves, as scalar, T[N], T[N][M]
+SWZ = [(f"SwZ<{'true' if sn else 'false'}, {m}>", f"adl-swap-{'noexcept' if sn else 'throwing'}/moves-{('noexcept', 'throwing', 'deleted')[m]}")
+       for sn in (True, False) for m in (0, 1, 2)]
+SWZ += [("AdlSwap", "adl-swap-only"), ("AdlSwapNothrow", "adl-swap-nothrow"), ("ThrowMove", "throwing-move"), ("MoveOnly", "move-only"),
+        ("NothrowMoveThrowCopy", "nothrow-move-throwing-copy")]
+for _s, _c in SWZ:
+    if _s.startswith("SwZ"):
+        z(_s, "class/" + _c)
+    z(_s + "[2]", "array/bounded/class/" + _c) if _s != "MoveOnly" else None
+    z(_s + "[2][3]", "array/bounded/multi/class/" + _c)
+    z(_s + "[]", "array/unbounded/class/" + _c) if _s.startswith("SwZ") else None
+
 # incomplete
 z("Incomplete", "incomplete/class", inc=True, align=False)
 z("Incomplete const", "incomplete/class+const", inc=True, align=False)
@@ -223,7 +237,7 @@ z("Incomplete[2]", "incomplete/array-bounded", inc=True, align=False)
 
 # mini zoo for the binary cross products
 MINI = [
-    "void", "int", "int const", "long", "double", "bool", "char", "E", "SE", "std::nullptr_t", "int*", "int const*", "void*",
+    "void", "void const volatile", "int volatile", "int const&&", "int(&)[3]", "int", "int const", "long", "double", "bool", "char", "E", "SE", "std::nullptr_t", "int*", "int const*", "void*",
     "void const*", "int&", "int const&", "int&&", "int[3]", "int[]", "void()", "void (*)()", "void (&)()", "Base", "Derived",
     "PrivDerived", "Ambiguous", "Base*", "Derived*", "Base&", "Derived&", "Base const&", "PrivDerived*", "Ambiguous*", "Empty", "ImplicitFromInt",
     "ExplicitFromInt", "ConvToInt", "ExplicitConvToInt", "int Pod::*", "MoveOnly", "DelCopy", "ThrowCopy", "U", "Abstract&",
@@ -252,6 +266,7 @@ ADV_BASE = [
     ("int", "AssignFromIntOnly"), ("int", "AssignReturnsVoid"), ("int", "AssignRvalueOnly"),
     ("int", "AssignReturnsValue"), ("int", "AssignReturnsConstRef"), ("int", "AssignReturnsInt"), ("int", "DelDtorFromInt"),
     ("int", "ThrowDtorFromInt"), ("SwA", "SwB"), ("SwC", "SwD"), ("UserL", "UserR"), ("UserL", "UserX"), ("CycA", "CycB"), ("CycB", "CycC"),
+    ("CrefConvA", "CrefTarget"), ("CtorD", "CtorC"),
     ("ConvToArrayRef", "int*"), ("ConvToFnPtr", "FnPtr"), ("ExplicitConvToInt", "int"), ("int", "ExplicitFromInt"),
 ]
 # decay targets and sources: arrays and functions
@@ -289,6 +304,11 @@ def adv_pairs():
             for tv in ("", " const", "&", " const&"):
                 add(f + fv, t + tv, f"adv:{cf}{_refcat(f, fv)},{ct}{_refcat(t, tv)}")
                 add(t + fv, f + tv, f"adv:{ct}{_refcat(t, fv)},{cf}{_refcat(f, tv)}")
+    for sp, c in SWZ:
+        for l, r, shape in (("&", "&", "T&,T&"), ("(&)[2]", "(&)[2]", "T[N]&,T[N]&"), ("(&)[2][3]", "(&)[2][3]", "T[N][M]&,T[N][M]&"),
+                            ("(&)[2]", "(&)[3]", "T[N]&,T[M]&"), ("(&)[2]", "&", "T[N]&,T&"), ("&", "(&)[2]", "T&,T[N]&"),
+                            ("(&&)[2]", "(&)[2]", "T[N]&&,T[N]&"), (" const(&)[2]", " const(&)[2]", "cT[N]&,cT[N]&")):
+            add(sp + l, sp + r, f"adv-swap:{c};{shape}")
     for f, t in ADV_FIXED:
         add(f, t, "adv-decay:" + _declcat(f) + "," + _declcat(t))
         add(t, f, "adv-decay:" + _declcat(t) + "," + _declcat(f))
